@@ -236,7 +236,12 @@ class FakeSocket:
         del self.rx[:]
 
     def shutdown(self, how):
-        pass
+        # Linux: shutdown() on a closed descriptor is EBADF, on a connection the peer has reset it is ENOTCONN
+        # (neither is a ConnectionError); after an orderly FIN it succeeds
+        if self.closed:
+            raise OSError(errno.EBADF, "Bad file descriptor")
+        if self.rx_rst:
+            raise OSError(errno.ENOTCONN, "Transport endpoint is not connected")
 
     def __hash__(self):
         return self.sid
@@ -475,7 +480,7 @@ CONSOLE = {"mode": "null"}
 class Sim:
     """One manager instance running on a fresh Net."""
 
-    def __init__(self, timecode=False, send_msg_timing=True, log_level=logging.ERROR, console="null"):
+    def __init__(self, timecode=False, send_msg_timing=True, log_level=logging.ERROR, console="null", debug=False):
         install()
         CONSOLE["mode"] = console
         import pyrtma.manager as mm
@@ -504,7 +509,7 @@ class Sim:
         self._to_mgr = threading.Semaphore(0)
         self._to_har = threading.Semaphore(0)
         self.mgr = mm.MessageManager("127.0.0.1", 7111, timecode=timecode, log_level=log_level,
-                                     debug=False, send_msg_timing=send_msg_timing)
+                                     debug=bool(debug), send_msg_timing=send_msg_timing)
         if console != "sink":
             try:
                 self.mgr.logger.enable_console = False
